@@ -49,7 +49,7 @@ namespace Givaro {
             for( ; ir != r.end(); ++ir, ++ix)
                 this->_domain.mul(*ir, a, *ix);
         }
-        return r;
+        return this->setdegree(r);
     }
 
     template <class Domain>
@@ -73,7 +73,7 @@ namespace Givaro {
             for(typename Rep::iterator ir = r.begin() ; ix != x.end(); ++ir, ++ix)
                 this->_domain.axpyin(*ir, a, *ix);
         }
-        return r;
+        return this->setdegree(r);
     }
     // -- maxpy: r <- c - a * b
     template <class Domain>
@@ -100,7 +100,7 @@ namespace Givaro {
             for (i=0; i<sB; ++i) _domain.maxpy(r[i], a, b[i], c[i]);
             for (; i<sC; ++i) _domain.assign(r[i], c[i]);
         }
-        return r;
+        return this->setdegree(r);
     }
 
     // -- maxpyin: r -= a*b
